@@ -163,11 +163,12 @@ func pSubst(p lpoly, s string, q lpoly) (lpoly, bool) {
 
 // symEnv evaluates expressions of one function.
 type symEnv struct {
-	p    *core.Prog
-	info *types.Info
-	vars map[types.Object]lpoly // locals with a known symbolic value
-	elem map[string]lpoly       // array element assignments: "name[k]" -> value
-	err  string
+	p     *core.Prog
+	info  *types.Info
+	vars  map[types.Object]lpoly // locals with a known symbolic value
+	elem  map[string]lpoly       // array element assignments: "name[k]" -> value
+	err   string
+	depth int
 }
 
 func newSymEnv(p *core.Prog, info *types.Info) *symEnv {
@@ -335,11 +336,96 @@ func (e *symEnv) eval(x ast.Expr) (lpoly, bool) {
 				// X(), MinX(): opaque symbol
 				return pSym(e.symName(v)), true
 			}
+			if r, ok := e.inlineCall(f, v); ok {
+				return r, true
+			}
 		}
 		return pSym(e.symName(v)), true
 	}
 	e.err = "unsupported expression " + core.ExprStr(x)
 	return nil, false
+}
+
+// inlineCall evaluates a call of a small arithmetic module helper in place: numeric parameters, a numeric first
+// result, and one value-carrying exit -- either a single return statement, or the (value, ok) / (value, error)
+// idiom in which every return but the last gives the failure value.  The helper's parameters take the symbolic
+// values of the arguments.
+func (e *symEnv) inlineCall(f *types.Func, call *ast.CallExpr) (lpoly, bool) {
+	if e.depth >= 2 {
+		return nil, false
+	}
+	h := e.p.ByObj[f.Origin()]
+	if h == nil || h.Decl.Body == nil || h.Decl.Recv != nil || !core.IsModPath(h.Pkg.PkgPath) || len(h.Decl.Body.List) == 0 || len(h.Decl.Body.List) > 12 {
+		return nil, false
+	}
+	sig := h.Obj.Type().(*types.Signature)
+	numeric := func(t types.Type) bool {
+		b, ok := t.Underlying().(*types.Basic)
+		return ok && b.Info()&types.IsNumeric != 0
+	}
+	if sig.Results().Len() == 0 || !numeric(sig.Results().At(0).Type()) || sig.Params().Len() != len(call.Args) || sig.Variadic() {
+		return nil, false
+	}
+	for i := 0; i < sig.Params().Len(); i++ {
+		if !numeric(sig.Params().At(i).Type()) {
+			return nil, false
+		}
+	}
+	var rets []*ast.ReturnStmt
+	ast.Inspect(h.Decl.Body, func(n ast.Node) bool {
+		if _, isLit := n.(*ast.FuncLit); isLit {
+			return false
+		}
+		if r, ok := n.(*ast.ReturnStmt); ok {
+			rets = append(rets, r)
+		}
+		return true
+	})
+	last, ok := h.Decl.Body.List[len(h.Decl.Body.List)-1].(*ast.ReturnStmt)
+	if !ok || len(rets) == 0 || rets[len(rets)-1] != last {
+		return nil, false
+	}
+	switch {
+	case len(rets) == 1:
+	case sig.Results().Len() == 2:
+		// every earlier exit is the failure exit
+		for _, r := range rets[:len(rets)-1] {
+			if len(r.Results) != 2 {
+				return nil, false
+			}
+			fail := canon(r.Results[1])
+			isErrCall := false
+			if cl, ok := ast.Unparen(r.Results[1]).(*ast.CallExpr); ok {
+				isErrCall = core.IsCallTo(h.Pkg.TypesInfo, cl, "errors.New", "fmt.Errorf")
+			}
+			if fail != "false" && !isErrCall {
+				return nil, false
+			}
+		}
+		if len(last.Results) == 2 && canon(last.Results[1]) == "false" {
+			return nil, false
+		}
+	default:
+		return nil, false
+	}
+	sub := newSymEnv(e.p, h.Pkg.TypesInfo)
+	sub.depth = e.depth + 1
+	for i := 0; i < sig.Params().Len(); i++ {
+		a, ok := e.eval(call.Args[i])
+		if !ok {
+			return nil, false
+		}
+		sub.vars[sig.Params().At(i)] = a
+	}
+	sub.run(h.Decl.Body.List)
+	if len(last.Results) == 0 {
+		// bare return with named results
+		if p, ok := sub.vars[sig.Results().At(0)]; ok {
+			return p, true
+		}
+		return nil, false
+	}
+	return sub.eval(last.Results[0])
 }
 
 // assign records `lhs = rhs` / `lhs := rhs`.
@@ -368,6 +454,19 @@ func (e *symEnv) run(stmts []ast.Stmt) {
 			if len(st.Lhs) == len(st.Rhs) {
 				for i := range st.Lhs {
 					e.assign(st.Lhs[i], st.Rhs[i])
+				}
+			} else if len(st.Lhs) == 2 && len(st.Rhs) == 1 {
+				// v, ok := helper(…): the value of an inlinable arithmetic helper
+				if call, isCall := ast.Unparen(st.Rhs[0]).(*ast.CallExpr); isCall {
+					if f := core.Callee(e.info, call); f != nil {
+						if r, ok := e.inlineCall(f, call); ok {
+							if id, isID := st.Lhs[0].(*ast.Ident); isID {
+								if o := core.ObjOf(e.info, id); o != nil {
+									e.vars[o] = r
+								}
+							}
+						}
+					}
 				}
 			}
 		case *ast.IfStmt:
